@@ -338,10 +338,86 @@ func transferCallbackErrorPropagates(c *Ctx, rule string) {
 			why = "on the callback's error the loop goes on to the next batch"
 		}
 	}
+	// ... and what every error edge of the transfer returns is that error (or one built on the spot):
+	// a return of some other, older error variable reports success for a refused or broken transfer
+	for _, d := range errorEdgesReturnTheError(p, fs) {
+		ok = false
+		if why != "" {
+			why += "; "
+		}
+		why += d
+	}
 	if why == "" && !ok {
 		why = "the callback's error is not tested on its own (it is merged with the \"do not ship\" verdict)"
 	}
 	c.Check(ok, rule, name, call.Pos(), "the callback's error ends the transfer", why+": a refusal (\"Gap found between versions\") is swallowed, the stream ends cleanly with nothing shipped and the follower's restore succeeds on a state that lacks versions")
+}
+
+// errorEdgesReturnTheError: for every `err != nil` test of fn, the returns reachable from its error edge
+// (before the tested value is produced again) return a value that derives from the tested error, or
+// an error constructed on the way. Reported: returns of nil or of an unrelated value.
+func errorEdgesReturnTheError(p *Program, fn *ssa.Function) []string {
+	var out []string
+	if fn.Signature.Results().Len() == 0 || !isErrorType(fn.Signature.Results().At(fn.Signature.Results().Len()-1).Type()) {
+		return nil
+	}
+	for _, b := range fn.Blocks {
+		ifi := blockIf(b)
+		if ifi == nil {
+			continue
+		}
+		k := p.errEdge(ifi)
+		if k < 0 {
+			continue
+		}
+		bo := ifi.Cond.(*ssa.BinOp)
+		ev := bo.X
+		if c, isC := ev.(*ssa.Const); isC && c.Value == nil {
+			ev = bo.Y
+		}
+		// sentinel comparisons and errors that are deliberately tolerated are not this rule's business:
+		// only edges from which a return is reachable without another statement that handles the error
+		evT := p.TermOf(ev).String()
+		seen := map[*ssa.BasicBlock]bool{}
+		var walk func(blk *ssa.BasicBlock)
+		walk = func(blk *ssa.BasicBlock) {
+			if seen[blk] {
+				return
+			}
+			seen[blk] = true
+			for _, in := range blk.Instrs {
+				if v, isV := in.(ssa.Value); isV && v == ev {
+					return // the tested value is produced again: a new round
+				}
+				if ret, isR := in.(*ssa.Return); isR {
+					rv := RetVal(ret, len(ret.Results)-1)
+					// resolve a phi by the edges reachable from the error edge only: approximate by accepting any alternative deriving from ev
+					t := p.TermOf(rv)
+					okR := false
+					for _, alt := range t.Alts() {
+						if alt.Has(func(x *Term) bool { return x.String() == evT }) {
+							okR = true
+						}
+						if (alt.Op == "call" || alt.Op == "invoke") && isErrorTerm(alt) {
+							okR = true // an error constructed for the occasion
+						}
+						if alt.Op == "global" {
+							okR = true // a sentinel error
+						}
+					}
+					if !okR {
+						out = append(out, fmt.Sprintf("on the error edge of the test at %s the function returns %s instead of the error it tested", p.pos(bo.Pos()), t.String()))
+					}
+					return
+				}
+			}
+			for _, s := range blk.Succs {
+				walk(s)
+			}
+		}
+		walk(b.Succs[k])
+	}
+	return out
 }
 
 // ---- the restore transfers whenever it runs inside a cluster ---------------------------------------------
